@@ -310,6 +310,11 @@ func (c *Ctx) safe(cs Case, fn func(cs Case)) {
 		if r := recover(); r != nil {
 			st := string(debug.Stack())
 			loc := panicSite(st)
+			if loc == "unknown" {
+				// no repository frame between the panic and the harness: the machinery itself failed
+				c.Fatal("harness panic in case %d (%s): %v\n%s", cs.Idx, cs.Desc, r, trim(st, 2500))
+				return
+			}
 			c.Violate(cs, "panic", map[string]string{"site": loc}, fmt.Sprintf("panic: %v\n%s", r, trim(st, 3000)), nil)
 		}
 	}()
